@@ -93,27 +93,29 @@ def _promoted_through_ref(b, bb, a):
     return None
 
 
-def _follow_to_switch(b, bb, local, maxsteps=4):
-    """from block bb follow gotos to the switch on `local` (a bool result)"""
+def _follow_to_switch(b, bb, local, maxsteps=12):
+    """from block bb follow gotos to the switch on `local` (a bool result), through plain copies
+    (`_25 = _18`, also across blocks: inlined helpers return through a copy chain) and `!x`
+    (targets swapped).  Returns (bb, switch-terminator-like) or None."""
+    alias = {local: False}       # local -> negated?
     for _ in range(maxsteps):
+        for st in b.stmts(bb):
+            if st["k"] != "=" or st["l"]["p"]:
+                continue
+            r = st["r"]
+            if r["k"] == "use" and op_local(r["o"]) in alias and not op_place(r["o"])["p"]:
+                alias[st["l"]["l"]] = alias[op_local(r["o"])]
+            elif r["k"] == "un" and r.get("op") == "Not" and op_local(r["o"]) in alias and not op_place(r["o"])["p"]:
+                alias[st["l"]["l"]] = not alias[op_local(r["o"])]
         t = b.term(bb)
         if t["k"] == "switch":
-            if op_local(t["d"]) == local:
-                return bb, t
-            # switch on a plain copy made in this block (`_25 = _18; switch(_25)`)
             dl = op_local(t["d"])
-            for st in b.stmts(bb):
-                if st["k"] == "=" and st["l"]["l"] == dl and not st["l"]["p"] and st["r"]["k"] == "use" \
-                   and op_local(st["r"]["o"]) == local and not op_place(st["r"]["o"])["p"]:
+            if dl in alias and not (op_place(t["d"]) or {}).get("p"):
+                if not alias[dl]:
                     return bb, t
-            # `!x` before the switch
-            for st in b.stmts(bb):
-                if st["k"] == "=" and st["r"]["k"] == "un" and st["r"]["op"] == "Not" and op_local(st["r"]["o"]) == local:
-                    if op_local(t["d"]) == st["l"]["l"]:
-                        # negated: swap targets
-                        ts = dict(t["ts"])
-                        if 0 in ts:
-                            return bb, {"k": "switch", "d": t["d"], "ts": [[0, t["o"]]], "o": ts[0]}
+                ts = dict(t["ts"])
+                if 0 in ts:
+                    return bb, {"k": "switch", "d": t["d"], "ts": [[0, t["o"]]], "o": ts[0]}
             return None
         if t["k"] == "goto":
             bb = t["t"]; continue
@@ -471,10 +473,16 @@ def closure_desc(ctx, cl):
     b = ctx.prog.bodies.get(cl)
     if b is None:
         return "closure"
+    # the alphabetically first crate-local callee: independent of block numbering and of the order
+    # of match arms (inlined helpers are appended at the end of the body)
+    known = getattr(ctx.prog, "recorded_names", None)
+    names = set()
     for i, t in b.calls():
         c = callee(t)
-        if c in ctx.prog.bodies and not c.startswith(("std::", "core::", "alloc::", "<")):
-            return "closure->" + c.split("::")[-1]
+        if (c in ctx.prog.bodies or (known and c in known)) and not c.startswith(("std::", "core::", "alloc::", "<")):
+            names.add(c.split("::")[-1])
+    if names:
+        return "closure->" + sorted(names)[0]
     for bb in b.bbs:
         for st in bb["s"]:
             if st["k"] == "=":
